@@ -1,51 +1,37 @@
-(* C09 property theorems (statements only; proofs are in Proofs.v). *)
+(* C09 property theorems (statements only; proofs are in Proofs.v).
+   Model of the REPAIRED code: split_remote_path drops "", "." and ".."; DefaultNamingStrategy falls
+   back to a fixed name when no component is left; _prepare_download_path reserves the chosen name
+   (creates the empty file) before its first suspension point. *)
 From Slsk Require Import Base.Tac.
 From Slsk Require Import C09.Model C09.Proofs.
 Open Scope N_scope.
 
-(* The statement of the property for names (every chain that contains the default strategy, every
-   remote path, every directory content: a path is produced, strictly inside dl, regular name)
-   is FALSE of the current code: finding F08. *)
-Theorem C09_inside_refuted : ~ inside_statement.
-Proof. exact inside_refuted. Qed.
-
-(* the three witness classes *)
-Theorem C09_inside_refuted_filename_dotdot : exists ch fs remote dl p f, dl_ok dl /\ In Default ch /\
-  chain fs remote ch dl = Some (p, f) /\ ~ regular_name f /\ ~ inside dl (p ++ [f]).
-Proof. exact inside_refuted_name. Qed.
-Theorem C09_inside_refuted_keepdir_dotdot : exists ch fs remote dl p f, dl_ok dl /\ In Default ch /\
-  chain fs remote ch dl = Some (p, f) /\ regular_name f /\ ~ inside dl (p ++ [f]).
-Proof. exact inside_refuted_dir. Qed.
-Theorem C09_inside_refuted_no_component : exists ch fs remote dl, dl_ok dl /\ In Default ch /\ chain fs remote ch dl = None.
-Proof. exact inside_refuted_crash. Qed.
-
-(* Two downloads of equally named files can be given the same path when both choose before
-   either creates its file: finding F09. *)
-Theorem C09_distinct_active_refuted : exists evs,
-  distinct_paths (d_paths (drun default_chain DL0 rem2 (mkD FS0 []) evs)) = false.
-Proof. exact distinct_active_refuted. Qed.
-
-(* What does hold (partial): when the peer's path has at least one component, its last component is
-   not "." / ".." and the one before it is not "." / "..", every chain of shipped strategies that
-   contains the default strategy yields - for every directory content - a path strictly inside the
-   download directory whose file name is regular (non-empty, not "." or "..", no separator). *)
-Theorem C09_inside_partial : forall ch fs remote dl, dl_ok dl -> In Default ch -> benign (split_remote_path remote) ->
+(* For EVERY remote path a peer can send, every chain of shipped strategies that contains the default
+   strategy and every directory content: a path is produced (nothing raises), it lies strictly inside
+   the download directory and its file name is regular (non-empty, not "." or "..", no separator). *)
+Theorem C09_inside : forall ch fs remote dl, dl_ok dl -> In Default ch ->
   exists p f, chain fs remote ch dl = Some (p, f) /\ inside dl (p ++ [f]) /\ regular_name f.
-Proof. exact inside_partial. Qed.
+Proof. exact inside_full. Qed.
 
-Example C09_inside_partial_nonvacuous :
-  dl_ok DL0 /\ In Default [KeepDir; Default; NumDup] /\ benign (split_remote_path [64;64;120;92;100;47;47;97;46;116]) /\
-  chain FS0 [64;64;120;92;100;47;47;97;46;116] [KeepDir; Default; NumDup] DL0 = Some (DL0 ++ [[100]], [97;46;116]).
-Proof. split; [apply DL0_ok|]. split; [right; left; reflexivity|]. split; [|vm_compute; reflexivity].
-  unfold benign. vm_compute. repeat split; discriminate. Qed.
+Example C09_inside_nonvacuous :
+  dl_ok DL0 /\ In Default [KeepDir; Default; NumDup] /\
+  chain FS0 [64;64;120;92;100;47;47;97;46;116] [KeepDir; Default; NumDup] DL0 = Some (DL0 ++ [[100]], [97;46;116]) /\
+  chain FS0 [46;46;92;120] [Default; KeepDir; NumDup] DL0 = Some (DL0, [120]) /\            (* ..\x *)
+  chain FS0 [97;92;46;46] [Default] DL0 = Some (DL0, [97]) /\                                (* a\.. *)
+  chain FS0 [92;92] default_chain DL0 = Some (DL0, UNNAMED).                                 (* \\ *)
+Proof. split; [apply DL0_ok|]. split; [right; left; reflexivity|]. vm_compute. repeat split; reflexivity. Qed.
 
-(* components produced by split_remote_path never contain a separator and are never empty *)
-Theorem C09_split_parts : forall s c, In c (split_remote_path s) -> c <> [] /\ nosep c.
+(* every chain, also one without the default strategy, yields a result whose directory is dl plus plain names *)
+Theorem C09_chain_total : forall ch fs remote dl,
+  exists p f ds, chain fs remote ch dl = Some (p, f) /\ p = dl ++ ds /\ Forall regular_name ds /\ nosep f.
+Proof. exact chain_total. Qed.
+
+(* components produced by split_remote_path are regular names *)
+Theorem C09_split_parts : forall s c, In c (split_remote_path s) -> regular_name c.
 Proof. exact split_parts. Qed.
 
 (* Freshness: for every chain that ENDS with NumberDuplicate, every remote path and directory content,
-   the chosen path does not exist when it is chosen (numbering fills the lowest gap above the smallest
-   existing index; prefix matches only make it skip more). *)
+   the chosen path does not exist when it is chosen. *)
 Theorem C09_fresh : forall ch fs remote dl p f,
   chain fs remote (ch ++ [NumDup]) dl = Some (p, f) -> pexists fs (p ++ [f]) = false.
 Proof. exact fresh. Qed.
@@ -60,13 +46,15 @@ Theorem C09_fresh_needs_number_duplicate : exists fs remote dl p f,
   chain fs remote [Default] dl = Some (p, f) /\ pexists fs (p ++ [f]) = true.
 Proof. exact fresh_needs_numdup. Qed.
 
-(* Distinctness (partial): a path chosen by a chain ending in NumberDuplicate differs from the path of
-   every download whose file has already been created; so downloads whose Prepare/Create pairs do not
-   overlap get distinct paths.  The overlapping case is refuted above (F09). *)
-Theorem C09_distinct_active_partial : forall ch fs remote dl p f p' f',
-  chain fs remote (ch ++ [NumDup]) dl = Some (p, f) -> pexists fs (p' ++ [f']) = true -> p ++ [f] <> p' ++ [f'].
-Proof. exact distinct_from_created. Qed.
+(* Distinctness over ALL interleavings of Prepare/Create events of any number of downloads (any remote
+   paths, any initial directory content), for every chain ending in NumberDuplicate: the downloads that
+   hold a local path hold pairwise different paths, and every such path exists (is reserved). *)
+Theorem C09_distinct_active : forall ch dl remotes evs fs,
+  let s := drun (ch ++ [NumDup]) dl remotes (mkD fs []) evs in
+  NoDup (map joined (d_paths s)) /\ (forall x, In x (d_paths s) -> pexists (d_fs s) (joined x) = true).
+Proof. intros. destruct (distinct_active ch dl remotes evs (mkD fs []) (dinv_empty fs)) as (H1 & H2). split; assumption. Qed.
 
-Example C09_distinct_serial_nonvacuous :
-  distinct_paths (d_paths (drun default_chain DL0 rem2 (mkD FS0 []) [Prepare 0; Create 0; Prepare 1; Create 1])) = true.
-Proof. exact distinct_active_serial_example. Qed.
+Example C09_distinct_active_nonvacuous :
+  distinct_paths (d_paths (drun default_chain DL0 rem2 (mkD FS0 []) [Prepare 0; Prepare 1; Create 0; Create 1])) = true /\
+  length (d_paths (drun default_chain DL0 rem2 (mkD FS0 []) [Prepare 0; Prepare 1; Create 0; Create 1])) = 2%nat.
+Proof. exact distinct_active_overlap_example. Qed.
